@@ -220,6 +220,9 @@ def build_found_rule(rng, decoded, features=None, sections=None, binary=False, m
                     (keep if c == nfiles else split[c]).append(m)
                 if not any(split):
                     split[0], keep = keep, []
+            if rng.random() < 0.2:
+                # the same definitions are ALSO given inline: the files are, strictly speaking, not needed
+                keep = keep + [copy.deepcopy(m) for ms in split for m in ms]
             for fi, ms in enumerate(split):
                 rel = f"{macro_dir}/m{fi}.yaml"
                 # an unrelated definition so that the file is never empty of macros
